@@ -88,7 +88,9 @@ def spec_allows(prev, t, nxt):
         # "... and the parent element is an HTML element that is not an a, audio, del, ins, map, noscript, or video
         # element, or an autonomous custom element" (the last clause is NOT in Spec/OptionalTags.v: decision trees
         # over literal names cannot express it; it is decided here only)
-        return nk is None or (nk == "EndTag" and nn not in P_PARENT_EXCLUDED and not is_custom_name(nn))
+        # ... nor can "is an HTML element": the end tag of an SVG or MathML parent)
+        return nk is None or (nk == "EndTag" and nn not in P_PARENT_EXCLUDED and not is_custom_name(nn) and
+                              nxt.get("namespace") in (HTML, None))
     if n in ("rt", "rp"):
         return (nk == "StartTag" and nn in ("rt", "rp")) or no_more
     if n == "optgroup":
@@ -127,7 +129,7 @@ class C13(Plugin):
         for n in P_PARENT_EXCLUDED + ["div", "my-card", "font-face", "canvas"]:
             out.append({"toks": [{"type": "EndTag", "namespace": HTML, "name": "p"},
                                  {"type": "EndTag", "namespace": HTML, "name": n}]})
-        for n in ["meta", "link", "script", "style", "template", "p"]:
+        for n in ["meta", "link", "script", "style", "template", "p", "noscript"]:
             for k in ("EmptyTag", "StartTag"):
                 out.append({"toks": [{"type": "StartTag", "namespace": HTML, "name": "body", "data": []},
                                      {"type": k, "namespace": HTML, "name": n, "data": []}]})
@@ -170,8 +172,10 @@ class C13(Plugin):
             elif t["name"] not in LISTED:
                 v.append(("removed-unlisted-name", t["name"]))
             elif not spec_allows(prev, t, nxt):
+                foreign = bool(nxt) and nxt["type"] == "EndTag" and nxt.get("namespace") not in (HTML, None)
                 v.append(("omission-not-allowed-by-syntax",
-                          "%s %s before %s %s" % (t["type"], t["name"], kind(nxt), (nxt or {}).get("name"))))
+                          "%s %s before %s %s%s" % (t["type"], t["name"], kind(nxt), (nxt or {}).get("name"),
+                                                    " (not an HTML element)" if foreign else "")))
         return v
 
     def classify(self, cls, case, detail):
@@ -183,12 +187,21 @@ class C13(Plugin):
         if cls == "omission-not-allowed-by-syntax" and detail.startswith("EndTag p before EndTag ") and \
                 is_custom_name(detail.split(" ")[-1]):
             return "C13-p-in-custom-element"
+        if cls == "omission-not-allowed-by-syntax" and detail.startswith("EndTag p before EndTag ") and \
+                detail.endswith(" (not an HTML element)"):
+            return "C13-p-in-foreign-parent"
         if cls == "omission-not-allowed-by-syntax" and detail == "EndTag tfoot before StartTag tbody":
             return "C13-tfoot-before-tbody"
         return None
 
     def known_witnesses(self):
-        return {"C13-p-before-datagrid-dialog-dir":
+        return {"C13-p-in-foreign-parent":
+                {"toks": [{"type": "EndTag", "namespace": HTML, "name": "p"},
+                          {"type": "EndTag", "namespace": "http://www.w3.org/2000/svg", "name": "foreignObject"}]},
+                "C13-p-in-custom-element":
+                {"toks": [{"type": "EndTag", "namespace": HTML, "name": "p"},
+                          {"type": "EndTag", "namespace": HTML, "name": "my-card"}]},
+                "C13-p-before-datagrid-dialog-dir":
                 {"toks": [{"type": "EndTag", "namespace": HTML, "name": "p"},
                           {"type": "StartTag", "namespace": HTML, "name": "dialog", "data": []}]},
                 "C13-tfoot-before-tbody":
